@@ -367,6 +367,8 @@ def native_input(case, point, seed=0):
                 out['W'] = [[float(point.get('w_%d_%d' % (i, j), rs.uniform(-1, 1) + (1.5 if i == j else 0))) for j in range(d)] for i in range(d)]
             if case.get('shrinkage'):
                 out.update(shrinkage=case['shrinkage'], penalty=float(point.get('penalty', 0.4)))
+                if case['shrinkage'] == 'glasso':
+                    out.update(penalty=0.05, standardise=bool(case.get('standardise')))
         elif case['which'] == 'misspec':
             out.update(adjustment=case['adjustment'], gamma=[float(point.get('g_%d' % j, 0.3 + 0.1 * j)) for j in range(d)])
         else:
@@ -413,6 +415,11 @@ class C20Cas(CasContract):
 # ====================================================================================== transforms
 TYPE_NAME = {0: 'two-sided', 1: 'upper-only', 2: 'lower-only', 3: 'unbounded'}
 TYPE_CASES = [(0,), (1,), (2,), (3,), (1, 0), (0, 1, 2), (3, 2, 0, 1)]
+TYPE_CASES_THOROUGH = TYPE_CASES + [(0, 0), (1, 1, 2), (2, 1, 3, 0), (1, 3, 2, 0)]
+
+
+def type_cases(tier):
+    return TYPE_CASES if tier == 'quick' else TYPE_CASES_THOROUGH
 
 
 def bound_symbols(types, two_points=False):
@@ -467,7 +474,7 @@ class BackOfFwd(C20Cas):
 
     def _idents(self, tier, seed):
         fwd, back = load(BSL + '_para_logit_transform'), load(BSL + '_para_logit_back_transform')
-        for types in TYPE_CASES:
+        for types in type_cases(tier):
             bound, x, dom = bound_symbols(types)
             y = fwd(np.array(x, dtype=object), bound)
             xb = back(y, bound)
@@ -487,7 +494,7 @@ class FwdOfBack(C20Cas):
 
     def _idents(self, tier, seed):
         fwd, back = load(BSL + '_para_logit_transform'), load(BSL + '_para_logit_back_transform')
-        for types in TYPE_CASES:
+        for types in type_cases(tier):
             bound, _, dom = bound_symbols(types)
             ys = [sp.Symbol('y%d' % i, real=True, finite=True) for i in range(len(types))]
             dom = merge(dom, {s: (-3, 3) for s in ys})
@@ -513,7 +520,7 @@ class JacobianLogit(C20Cas):
 
     def _idents(self, tier, seed):
         back, jac = load(BSL + '_para_logit_back_transform'), load(BSL + '_jacobian_logit_transform')
-        for types in TYPE_CASES:
+        for types in type_cases(tier):
             bound, _, dom = bound_symbols(types)
             ys = [sp.Symbol('y%d' % i, real=True, finite=True) for i in range(len(types))]
             dom = merge(dom, {s: (-3, 3) for s in ys})
@@ -540,7 +547,7 @@ class MhRatioEndToEnd(C20Cas):
     def _idents(self, tier, seed):
         fwd, back, jac = (load(BSL + n) for n in ('_para_logit_transform', '_para_logit_back_transform', '_jacobian_logit_transform'))
         ratio = load(BSL + '_get_mh_ratio')
-        for types in self.CASES:
+        for types in self.CASES + ([] if tier == 'quick' else [(3, 2, 0, 1), (1, 0)]):
             nm = 'no-bounds' if types is None else tname(types)
             p = 2 if types is None else len(types)
             Ln, Lp = sp.Symbol('Lnew', real=True, finite=True), sp.Symbol('Lcur', real=True, finite=True)
@@ -667,26 +674,40 @@ class GaussianSynLikelihood(C20Cas):
     target = PDF + 'gaussian_syn_likelihood'
     prop = 'C20'
     label = 'args'
-    shapes = '(n, d) = (4, 2), (5, 3), (4, 1); y given as (1, d); whitening none / W (d x d); shrinkage none / warton (glasso not contracted)'
+    shapes = '(n, d) = (4, 2), (5, 3), (4, 1) [thorough: + (7, 3), (6, 4)]; y given as (1, d); whitening none / W (d x d); shrinkage none / warton / glasso (+ standardise; sklearn graphical_lasso assumed, d >= 2) at (4, 2) [thorough: + (5, 3)]'
     SHAPES = [(4, 2), (5, 3), (4, 1)]
 
     def _idents(self, tier, seed):
-        for n, d in self.SHAPES:
+        for n, d in self.SHAPES + ([] if tier == 'quick' else [(7, 3), (6, 4)]):
             for whiten in (False, True):
                 for shrink in (None, 'warton'):
                     if (n, d) == (5, 3) and whiten and shrink and tier == 'quick':
                         continue
                     yield from self.one(n, d, whiten, shrink, seed)
+        for n, d in ([(4, 2)] if tier == 'quick' else [(4, 2), (5, 3)]):       # sklearn's graphical_lasso needs d >= 2
+            for whiten in (False, True):
+                for standardise in (False, True):
+                    yield from self.one(n, d, whiten, 'glasso', seed, standardise)
 
-    def one(self, n, d, whiten, shrink, seed):
+    def one(self, n, d, whiten, shrink, seed, standardise=False):
         X, y, dom = data_symbols(n, d)
         W = real_symbols('w', (d, d)) if whiten else None
         pen = sp.Symbol('penalty', real=True, finite=True)
         if whiten:
             dom.update(box(W, -1.5, 1.5))
         dom[pen] = (0.05, 0.95)
-        tag = 'n=%d,d=%d,%s,%s' % (n, d, 'W' if whiten else 'no-W', shrink or 'no-shrink')
-        case = dict(kind='likelihood', which='gsl', n=n, d=d, whiten=whiten, shrinkage=shrink)
+        tag = 'n=%d,d=%d,%s,%s%s' % (n, d, 'W' if whiten else 'no-W', shrink or 'no-shrink', ',standardise' if standardise else '')
+        case = dict(kind='likelihood', which='gsl', n=n, d=d, whiten=whiten, shrinkage=shrink, standardise=standardise)
+        gl_calls = []
+
+        def graphical_lasso(emp_cov, alpha=None, max_iter=None, **kw):
+            if kw:
+                raise OutOfSubset('graphical_lasso keyword %s' % sorted(kw))
+            if raw(emp_cov).shape[0] < 2:
+                raise OutOfSubset('graphical_lasso on fewer than 2 features (sklearn refuses)')
+            gm = real_symbols('gl', (d, d))
+            gl_calls.append((emp_cov, alpha, gm))
+            return gm.view(SA), real_symbols('glp', (d, d)).view(SA)
         mvn = Mvn()
         cw_calls = []
 
@@ -694,10 +715,11 @@ class GaussianSynLikelihood(C20Cas):
             cw = real_symbols('cw', (d, d))
             cw_calls.append((S, gamma, cw))
             return cw.view(SA)
-        env = dict(ss=type('ss', (), dict(multivariate_normal=mvn)), cov_warton=cov_warton)
+        env = dict(ss=type('ss', (), dict(multivariate_normal=mvn)), cov_warton=cov_warton, graphical_lasso=graphical_lasso)
         f = load(self.target, env)
         try:
-            res = f(sa(X), sa(y.reshape(1, d)), shrinkage=shrink, penalty=(pen if shrink else None), whitening=(sa(W) if whiten else None))
+            res = f(sa(X), sa(y.reshape(1, d)), shrinkage=shrink, penalty=(pen if shrink else None), whitening=(sa(W) if whiten else None),
+                    **(dict(standardise=True) if standardise else {}))
         except OutOfSubset:
             raise
         except Exception as e:
@@ -737,6 +759,28 @@ class GaussianSynLikelihood(C20Cas):
                 yield predecided('cov = ridge estimate [%s]' % tag, 'undecided', 'shape %s' % (raw(c['cov']).shape,), case)
             else:
                 yield dict(name='cov = the ridge estimate returned by cov_warton [%s]' % tag, lhs=pk[0], rhs=pk[1], domain=merge(dom, pk[2], box(cwm, 0.5, 1.5)), case=case)
+        elif shrink == 'glasso':
+            # sklearn's graphical_lasso is an assumed library: its argument, its penalty and the use of its estimate are checked
+            if len(gl_calls) != 1:
+                yield predecided('one graphical_lasso call [%s]' % tag, 'undecided', '%d calls' % len(gl_calls), case)
+                return
+            E_arg, a_arg, gm = gl_calls[0]
+            sd = [sp.sqrt(S_spec[j][j]) for j in range(d)]
+            E_spec = [[S_spec[i][j] / (sd[i] * sd[j]) for j in range(d)] for i in range(d)] if standardise else S_spec
+            pk = packed(E_arg, E_spec, 'E')
+            nm = 'glasso gets the sample %s of (whitened) summaries [%s]' % ('correlation' if standardise else 'covariance', tag)
+            if pk is None:
+                yield predecided(nm, 'undecided', 'shape %s' % (raw(E_arg).shape,), case)
+            else:
+                yield dict(name=nm, lhs=pk[0], rhs=pk[1], domain=merge(dom, pk[2]), case=case)
+            yield dict(name='glasso gets alpha = penalty [%s]' % tag, lhs=exactify(a_arg), rhs=pen, domain=dom, case=case)
+            want = [[gm[i, j] * (sd[i] * sd[j] if standardise else 1) for j in range(d)] for i in range(d)]
+            pk = packed(c['cov'], want, 'C')
+            nm = 'cov = glasso estimate%s [%s]' % (' x sd_i sd_j' if standardise else '', tag)
+            if pk is None:
+                yield predecided(nm, 'undecided', 'shape %s' % (raw(c['cov']).shape,), case)
+            else:
+                yield dict(name=nm, lhs=pk[0], rhs=pk[1], domain=merge(dom, pk[2], box(gm, 0.5, 1.5)), case=case)
         else:
             pk = packed(c['cov'], S_spec, 'S')
             if pk is None:
@@ -749,11 +793,11 @@ class SynLikelihoodMisspec(C20Cas):
     target = PDF + 'syn_likelihood_misspec'
     prop = 'C20'
     label = 'args'
-    shapes = '(n, d) = (4, 2), (5, 3), (4, 1); adjustment mean / variance'
+    shapes = '(n, d) = (4, 2), (5, 3), (4, 1) [thorough: + (7, 3), (6, 4)]; adjustment mean / variance'
     SHAPES = [(4, 2), (5, 3), (4, 1)]
 
     def _idents(self, tier, seed):
-        for n, d in self.SHAPES:
+        for n, d in self.SHAPES + ([] if tier == 'quick' else [(7, 3), (6, 4)]):
             for adj in ('mean', 'variance'):
                 X, y, dom = data_symbols(n, d)
                 gam = real_symbols('g', (d,))
@@ -789,12 +833,12 @@ class GhuryeOlkin(C20Cas):
     target = PDF + 'gaussian_syn_likelihood_ghurye_olkin'
     prop = 'C20'
     label = 'formula'
-    shapes = '(n, d) = (6, 2), (8, 3), (6, 1); Psi positive definite / not positive definite'
+    shapes = '(n, d) = (6, 2), (8, 3), (6, 1) [thorough: + (7, 2), (9, 4)]; Psi positive definite / not positive definite'
     SHAPES = [(6, 2), (8, 3), (6, 1)]
 
     def _idents(self, tier, seed):
         wcon = load(PDF + 'wcon', dict(loggamma=loggamma_model))
-        for n, d in self.SHAPES:
+        for n, d in self.SHAPES + ([] if tier == 'quick' else [(7, 2), (9, 4)]):
             for psi_sign in (1, -1):
                 X, y, dom = data_symbols(n, d)
                 tag = 'n=%d,d=%d,%s' % (n, d, 'Psi>0' if psi_sign > 0 else 'Psi not>0')
